@@ -14,6 +14,9 @@ claim("C20", "Coq theorems (Props/C20.v) over name tables regenerated from proxy
 claim("C15", "Coq theorems (Props/C15.v) for all event histories, all host lists and all values of the wrapping 64-bit counter: membership equals the set-based specification and stays duplicate-free, every plan is a rotation (hence permutation) of its snapshot, Next walks it then reports exhaustion, consecutive plans start at consecutive hosts and first-choice counts over any run differ by at most one (counter not crossing 2^64). Tied by a differential run of the public API (exhaustive well-formed histories over 3-4 hosts with plans held across events, random histories, counter values around 2^32/2^63/2^64 via a verif hook, concurrent stress).",
       "Coq kernel, no axioms; LB.v hand-written from proxycore/lb.go, tied by correspondence; well-formed histories (bootstrap lists duplicate-free, Add only for absent hosts) are a hypothesis discharged for mergeHosts under C16; concurrency is exercised, the Go memory model is not formalised.")
 
+claim("C11", "Coq theorems (Props/C11.v): for every query string, prepared id, result-metadata id, batch child list, consistency and every option tail (an arbitrary byte list, so all flags/values/paging/serial-consistency/timestamp/keyspace/now-in-seconds layouts) in every protocol version, the partial decoders accept the reference layout, return the reference fields, and re-encode to the identical bytes; on arbitrary byte lists they return Ok or Err, never panic or run out of fuel, and keep only a suffix of their input. Tied by a differential run of codecs.CustomRawCodec (DecodeBody at frame level incl. a custom-payload prefix, message Encode and EncodedLength) against bodies produced by the reference encoder for v3/v4/v5/DSEv1/DSEv2, all their prefixes, field mutations, random and boundary bytes.",
+      "Coq kernel, no axioms; Model/Codec.v hand-written from codecs/partial_codecs.go; the reference layout grammar is itself validated against frame.NewRawCodec() output on every run; lengths of strings < 2^31 and ids < 2^16 are hypotheses (protocol limits).")
+
 def chk(pid, c):
     return {"property_id": pid, "quick_cmd": "./check %s --tier quick" % pid, "thorough_cmd": "./check %s --tier thorough" % pid,
             "evidence_file": "/verif/evidence/%s.json" % pid, "replay_cmd_template": "./check %s --replay {path}" % pid,
